@@ -1,6 +1,7 @@
 import Infretis.Model.Proto
 import Infretis.Model.WF
-open Infretis Infretis.Proto Infretis.WF
+import Infretis.Model.WFExt
+open Infretis Infretis.Proto Infretis.WF Infretis.WFExt
 
 def showSeg (s : Nat × Nat × Nat) : String := s!"{s.1},{s.2.1},{s.2.2}"
 
@@ -63,4 +64,143 @@ def handle (toks : List String) : String :=
     | _, _ => "bad-op"
   | _ => "bad-op"
 
-def main : IO Unit := mainWith handle
+/-! ### extension ops (Model/WFExt.lean) -/
+
+def optInt? (s : String) : Option (Option Int) := if s = "-" then some none else (parseInt? s).map some
+def optNat? (s : String) : Option (Option Nat) := if s = "-" then some none else (parseNat? s).map some
+def optRat? (s : String) : Option (Option Rat) := if s = "-" then some none else (parseRat? s).map some
+
+def parseMove? (s : String) : Option Move :=
+  if s = "wf" then some .wf else if s = "ss" then some .ss else if s = "sh" then some .sh else none
+
+def showBranch : Branch → String
+  | .jump => "J" | .openL => "L" | .openR => "R" | .abortRR => "A" | .close => "C" | .none => "N"
+
+def showB (b : Bool) : String := if b then "1" else "0"
+
+def showExceptNat (r : Except Err Nat) : String :=
+  match r with
+  | .ok w => toString w
+  | .error e => showErr e
+
+/-- `k` length-prefixed integer lists -/
+def takeLists : Nat → List String → Option (List (List Int) × List String)
+  | 0, rest => some ([], rest)
+  | k + 1, rest =>
+    match takeList parseInt? rest with
+    | none => none
+    | some (xs, rest) =>
+      match takeLists k rest with
+      | none => none
+      | some (xss, rest) => some (xs :: xss, rest)
+
+def showSegX (s : Seg) : String :=
+  s!"{if s.frames.isEmpty then 0 else s.first} | {showList toString s.frames} | {match s.maxlen with | some m => toString m | none => "-"} | {showB s.copied}"
+
+def handleExt (toks : List String) : Option String :=
+  match toks with
+  | "trace" :: l :: r :: rest =>
+    match parseInt? l, parseInt? r, takeList parseInt? rest with
+    | some l, some r, some (ops, []) =>
+      let tr := trace l r ops
+      let f := traceFinal l r ops
+      some (showList (fun (x : Branch × Scan) =>
+          s!"{showBranch x.1}:{showB x.2.keyL}:{showB x.2.keyR}:{x.2.isave}:{x.2.arr.length}") tr
+        ++ s!" | {sumLens f.arr} | {showList showSeg f.arr}")
+    | _, _, _ => some "bad-op"
+  | "wpick" :: ml :: l :: r :: rs :: xi :: rest =>
+    match optNat? ml, parseInt? l, parseInt? r, optRat? xi, takeList parseInt? rest with
+    | some ml, some l, some r, some xi, some (ops, []) =>
+      match wfWeightAndPick ml l r ops (rs = "1") xi with
+      | .ok o => some s!"{o.nFrames} | {showSegX o.seg} | {o.draws}"
+      | .error e => some (showErr e)
+    | _, _, _, _, _ => some "bad-op"
+  | "wfseed2" :: ml :: i1 :: i2 :: cap :: xi :: rest =>
+    match optNat? ml, parseInt? i1, parseInt? i2, optInt? cap, parseRat? xi, takeList parseInt? rest with
+    | some ml, some i1, some i2, some cap, some xi, some (ops, []) =>
+      match wfSeed ml i1 i2 cap ops xi with
+      | .ok (some (sub, sg)) => some s!"{showList toString sub} | {showSegX sg}"
+      | .ok none => some "none"
+      | .error e => some (showErr e)
+    | _, _, _, _, _, _ => some "bad-op"
+  | "cwm" :: i0 :: i1 :: i2 :: mv :: rest =>
+    match parseInt? i0, parseInt? i1, parseInt? i2, parseMove? mv, takeList parseInt? rest with
+    | some i0, some i1, some i2, some mv, some (ops, []) => some (showExceptNat (computeWeightM ops i0 i1 i2 mv))
+    | _, _, _, _, _ => some "bad-op"
+  | "cvfull" :: minus :: lm1 :: cap :: rest =>
+    match optInt? lm1, optInt? cap, takeList parseInt? rest with
+    | some lm1, some cap, some (intfs, rest) =>
+      match takeList parseMove? rest with
+      | some (mv, rest) =>
+        match takeList parseInt? rest with
+        | some (ops, []) =>
+          some (showExcept (calcCvVector ops { interfaces := intfs, moves := mv, lm1 := lm1, cap := cap, minus := minus = "1" }))
+        | _ => some "bad-op"
+      | none => some "bad-op"
+    | _, _, _ => some "bad-op"
+  | "cvcols" :: minus :: lm1 :: cap :: rest =>
+    -- frames carrying several order-parameter columns: `k` frames, each a length-prefixed list
+    match optInt? lm1, optInt? cap, takeList parseInt? rest with
+    | some lm1, some cap, some (intfs, rest) =>
+      match takeList parseMove? rest with
+      | some (mv, k :: rest) =>
+        match parseNat? k with
+        | some k =>
+          match takeLists k rest with
+          | some (frames, []) =>
+            match col0 frames with
+            | .ok ops =>
+              some (showExcept (calcCvVector ops { interfaces := intfs, moves := mv, lm1 := lm1, cap := cap, minus := minus = "1" }))
+            | .error e => some (showErr e)
+          | _ => some "bad-op"
+        | none => some "bad-op"
+      | _ => some "bad-op"
+    | _, _, _ => some "bad-op"
+  | "has" :: a0 :: a1 :: a2 :: b0 :: b1 :: b2 :: m0 :: m1 :: xi :: rest =>
+    match parseInt? a0, parseInt? a1, parseInt? a2, parseInt? b0, parseInt? b1, parseInt? b2 with
+    | some a0, some a1, some a2, some b0, some b1, some b2 =>
+      match parseMove? m0, parseMove? m1, parseRat? xi, takeLists 2 rest with
+      | some m0, some m1, some xi, some ([pa, pb], []) =>
+        match highAccSwap pa pb a0 a1 a2 b0 b1 b2 m0 m1 xi with
+        | .ok o => some s!"{showB o.accept} {showRat o.ratio}"
+        | .error e => some (showErr e)
+      | _, _, _, _ => some "bad-op"
+    | _, _, _, _, _, _ => some "bad-op"
+  | "loadw" :: lm1 :: cap :: rest =>
+    match optInt? lm1, optInt? cap, takeList parseInt? rest with
+    | some lm1, some cap, some (intfs, rest) =>
+      match takeList parseMove? rest with
+      | some (mv, k :: rest) =>
+        match parseNat? k with
+        | some k =>
+          match takeLists k rest with
+          | some (paths, []) =>
+            match loadPathsWeights intfs mv lm1 cap paths with
+            | .ok wss => some (showList (fun ws => "[" ++ showList toString ws ++ "]") wss)
+            | .error e => some (showErr e)
+          | _ => some "bad-op"
+        | none => some "bad-op"
+      | _ => some "bad-op"
+    | _, _, _ => some "bad-op"
+  | "mdw" :: lm1 :: cap :: ens :: rest =>
+    match optInt? lm1, optInt? cap, parseInt? ens, takeList parseInt? rest with
+    | some lm1, some cap, some ens, some (intfs, rest) =>
+      match takeList parseMove? rest with
+      | some (mv, rest) =>
+        match takeList parseInt? rest with
+        | some (ops, []) => some (showExcept (runMdWeights intfs mv lm1 cap ens ops))
+        | _ => some "bad-op"
+      | none => some "bad-op"
+    | _, _, _, _ => some "bad-op"
+  | "subtw" :: l :: m :: r :: cap :: mv :: rest =>
+    match parseInt? l, parseInt? m, parseInt? r, optInt? cap, parseMove? mv, takeList parseInt? rest with
+    | some l, some m, some r, some cap, some mv, some (ops, []) => some (showExceptNat (subtWeight l m r cap mv ops))
+    | _, _, _, _, _, _ => some "bad-op"
+  | _ => none
+
+def handleAll (toks : List String) : String :=
+  match handleExt toks with
+  | some s => s
+  | none => handle toks
+
+def main : IO Unit := mainWith handleAll
